@@ -1007,6 +1007,18 @@ pub fn yaml_scan(ctx: &Ctx, rng: &mut Rng, o: &mut Out) {
   for w in ["", "# nothing here\n", "---\n", "---\n---\n", "null\n", "\n\n", "---\n# c\n---\n"] {
     docs.push((w.as_bytes().to_vec(), "witness", "rule"));
   }
+  // global utility rules (files of `utilDirs`; the harness adds a rule `matches: <id>`): a rule
+  // that requires itself on the same node through its OWN local utility (accepted before the
+  // cycle check followed `matches` into the local utilities: the scan overflowed the stack), the
+  // same under `any`, and a reference to a rule that does not exist
+  for w in [
+    "id: g\nlanguage: JavaScript\nutils:\n  x: {matches: g}\nrule: {kind: number, matches: x}\n",
+    "id: g\nlanguage: JavaScript\nutils:\n  x: {any: [{kind: string}, {matches: g}]}\nrule: {kind: number, matches: x}\n",
+    "id: g\nlanguage: JavaScript\nutils:\n  x: {matches: y}\n  y: {not: {matches: g}}\nrule: {kind: identifier, matches: x}\n",
+    "id: g\nlanguage: JavaScript\nrule: {kind: number, matches: nonexistent}\n",
+  ] {
+    docs.push((w.as_bytes().to_vec(), "witness", "util"));
+  }
   // project configurations: every list / map empty, repeated, missing on disk, wrongly typed
   for w in [
     "ruleDirs: [rules]\nutilDirs: []\n",
